@@ -264,7 +264,7 @@ class Resp:
     __slots__ = ('rid', 'kind', 'path', 'src', 'recv_port', 'template',
                  'enabled', 'freed', 'one_shot', 'spent', 'permanent',
                  'created', 'enabled_at', 'fver', 'cmdp_since_enable',
-                 'perm_set_while_disabled')
+                 'perm_set_while_disabled', 'replaced_after_one_shot')
 
     def __init__(self, rid, kind, path, src, recv_port, template, seq):
         self.rid = rid
@@ -283,6 +283,7 @@ class Resp:
         self.fver = 0
         self.cmdp_since_enable = False
         self.perm_set_while_disabled = False
+        self.replaced_after_one_shot = False
 
     def state(self):
         if self.spent:
@@ -340,8 +341,13 @@ class DispatchModel:
         self.resps[rid].one_shot = True
 
     def set_func(self, rid):
-        self.resps[rid].fver += 1
-        return self.resps[rid].fver
+        # replacing the function does not change what kind of responder it is:
+        # a one-shot responder stays a one-shot responder
+        r = self.resps[rid]
+        r.fver += 1
+        if r.one_shot:
+            r.replaced_after_one_shot = True
+        return r.fver
 
     def set_permanent(self, rid, value):
         r = self.resps[rid]
@@ -369,7 +375,10 @@ class DispatchModel:
     def address_accepts(self, r, address):
         if r.kind == 'exact':
             return address == r.path
-        return osc_match(address, r.path)
+        try:
+            return osc_match(address, r.path)
+        except PatternError:
+            return False          # a malformed pattern matches nothing
 
     def verdict(self, r, address, args, sender, recv_port):
         """'must' | 'not' | 'either' for one responder and one message.
